@@ -805,7 +805,7 @@ class ShapedEncoding(LazyIndexMap):
         return self._data.dense.reshape(self.shape)
 
     def mask(self, mask):
-        return self._data.mask(mask.flat)
+        return self._data.mask(mask.reshape((-1,)))
 
     def copy(self):
         return ShapedEncoding(encoding=self._data.copy(), shape=self.shape)
@@ -872,7 +872,9 @@ class TransposedEncoding(LazyIndexMap):
         return self._data.gather(self._to_base_indices(indices))
 
     def mask(self, mask):
-        return self._data.mask(mask.transpose(self._inv_perm)).transpose(self._perm)
+        if isinstance(mask, Encoding):
+            mask = mask.dense
+        return self.gather_nd(np.column_stack(np.where(mask)))
 
     @property
     def data(self):
@@ -928,10 +930,9 @@ class FlippedEncoding(LazyIndexMap):
         return dense
 
     def mask(self, mask):
-        if not isinstance(mask, Encoding):
-            mask = DenseEncoding(mask)
-        mask = mask.flip(self._axes)
-        return self._data.mask(mask).flip(self._axes)
+        if isinstance(mask, Encoding):
+            mask = mask.dense
+        return self.gather_nd(np.column_stack(np.where(mask)))
 
     def copy(self):
         return FlippedEncoding(self._data.copy(), self._axes)
